@@ -1,6 +1,8 @@
 package vc
 
 import (
+	"os"
+	"runtime/debug"
 	"fmt"
 	"go/constant"
 	"go/token"
@@ -97,6 +99,9 @@ type VCtx struct {
 	csCount   int
 	goCount   int
 	heldAtEntry *Term
+	published map[string]bool
+	freshObjs []*Term
+	lastCSEntry *State // state right after the most recent lock acquisition (csold)
 	localMon  *localMonState
 	writesZero bool
 	relPkgs   []string
@@ -419,6 +424,9 @@ func (c *VCtx) havocHeap(st *State, name string) *Term {
 		return nil
 	}
 	t := c.fresh("H!"+name, sort)
+	if os.Getenv("GOVC_DEBUG") != "" && strings.HasPrefix(name, "C:") {
+		fmt.Fprintf(os.Stderr, "havocHeap %s -> %s\n%s\n", name, t.S, debug.Stack())
+	}
 	c.heapWellFormed(st, name, t)
 	st.heaps[name] = t
 	if strings.HasPrefix(name, "C:") {
@@ -428,6 +436,9 @@ func (c *VCtx) havocHeap(st *State, name string) *Term {
 }
 
 func (c *VCtx) havocAll(st *State) {
+	if os.Getenv("GOVC_DEBUG") != "" {
+		fmt.Fprintf(os.Stderr, "havocAll\n%s\n", debug.Stack())
+	}
 	c.nfresh++
 	st.epoch = c.nfresh
 	st.heaps = map[string]*Term{}
@@ -637,6 +648,8 @@ type Frame struct {
 	args     []Val
 	curBlock *ssa.BasicBlock
 	curIdx   int
+	unlocks  int
+	gos      int
 }
 
 type deferred struct {
@@ -730,6 +743,10 @@ func analyzeLoops(fn *ssa.Function) map[*ssa.BasicBlock]*loopInfo {
 func (c *VCtx) newFrame(fn *ssa.Function, parent *Frame) *Frame {
 	fr := &Frame{ctx: c, fn: fn, env: map[ssa.Value]Val{}, parent: parent, loops: analyzeLoops(fn), dbg: map[string][]dbgBind{}}
 	fr.contract = c.eng.ContractOf(fn)
+	if o := fn.Origin(); o != nil && o != fn {
+		// instantiation wrapper of a generic function: the annotations belong to the generic body it calls
+		fr.contract = nil
+	}
 	for _, b := range fn.Blocks {
 		for i, in := range b.Instrs {
 			if d, ok := in.(*ssa.DebugRef); ok {
